@@ -158,47 +158,21 @@ func rulesC03(e *Engine, r *Report) {
 	}
 	// ---------------------------------------------------------------- R03.5
 	r.Rule("R03.5", "a file that failed validation can be received again: its complete companion is discarded before new parts are recorded - either the validator removes the companion on every failure path, or the stage-file initialiser removes it on every path where the cached state is `failed` (otherwise the first re-sent part completes the stale record, the file fails again, for ever)")
-	{
-		failedC, _ := e.ConstVal("stage", "stateFailed")
-		optA, optB := false, false
-		var factsA, factsB []string
-		if fn := e.Fn("stage.(*Stage).process"); fn != nil {
-			cls := labeler(I(`call(os.Remove)((p1.path + ".cmp"))`, "cmpRemoved"))
-			res := e.Flow(fn, FlowOpts{Classify: cls, Target: e.instrMatch("call(stage.(*Stage).toCache)(p0, p1, " + failedC + ")")})
-			n, good := 0, 0
-			for _, ws := range res.At {
-				for _, w := range ws {
-					n++
-					if w.Has("cmpRemoved") {
-						good++
-					}
-				}
+	e.checkFailedCompanionDiscarded(r, "R03.5")
+	// ---------------------------------------------------------------- R03.7
+	r.Rule("R03.7", "the unacknowledged tail of a partly accepted payload is sent again: Payload.Split(n) hands out parts[n:] (taken BEFORE the head is cut to parts[:n]) with exactly their bytes, and handleSendError returns that payload to the send loop - an empty remainder would be taken for `everything arrived` and the tail files would never be sent, polled or retried - shared with R11.3")
+	e.checkSplit(r, "R03.7")
+	if fn := needFn(e, r, "R03.7", "client.(*Broker).handleSendError"); fn != nil {
+		n := 0
+		Instrs(fn, func(in ssa.Instruction) {
+			if rt, ok := in.(*ssa.Return); ok && len(rt.Results) == 1 && rt.Block().Comment != "recover" {
+				v := e.Canon(rt.Results[0])
+				n++
+				r.Check(v == "p1" || strings.Contains(v, "invoke(sts.Payload.Split)(p1, "), "R03.7", "client.(*Broker).handleSendError: what goes back to the send loop is the payload or its split-off tail", e.InstrPos(rt),
+					"the send-error handler returns something else than the payload / the remainder of Split: "+shorten(v), 1, v)
 			}
-			optA = n > 0 && good == n && !res.Undecided
-			factsA = append(factsA, fmt.Sprintf("validator: %d of %d failure paths remove the companion", good, n))
-		}
-		if fn := needFn(e, r, "R03.5", "stage.(*Stage).initStageFile"); fn != nil {
-			edges := e.ifEdges(fn, "(call(stage.(*Stage).getFileState)(p0, p1) == "+failedC+")")
-			cls := labeler(I(`call(os.Remove)((p1 + ".cmp"))`, "cmpRemoved"))
-			okAll := len(edges) > 0
-			for _, ed := range edges {
-				res := e.Flow(fn, FlowOpts{Classify: cls, Target: e.instrMatch(`call(os.Create)((p1 + ".part"))`), StartEdge: ed.B, StartSucc: ed.Succ})
-				for _, ws := range res.At {
-					for _, w := range ws {
-						if !w.Has("cmpRemoved") {
-							okAll = false
-						}
-					}
-				}
-				if res.Undecided {
-					okAll = false
-				}
-			}
-			optB = okAll
-			factsB = append(factsB, fmt.Sprintf("initStageFile: %d `state == failed` edge(s), all reach the partial's creation through Remove[Cmp]: %v", len(edges), okAll))
-			r.Check(optA || optB, "R03.5", "stage: companion of a failed file is discarded before re-reception", e.Pos(fn.Pos()),
-				"neither the validator (on every failure path) nor initStageFile (on every state==failed path) removes the stale companion: a re-sent file completes at its first part and fails validation for ever", 2, append(factsA, factsB...)...)
-		}
+		})
+		r.Min("R03.7", "returns of handleSendError", n, 1)
 	}
 	// ---------------------------------------------------------------- R03.6
 	r.Rule("R03.6", "a held file whose predecessor is unknown keeps being re-examined: every call of toWait with a positive delay arms a fresh timer (time.AfterFunc stored in the file's wait field) on every path - a timer that already fired must not count as pending -, the timer's callback puts the file back on the finalize queue, and isFileReady asks for a positive delay on the `predecessor not found in the log` path")
@@ -269,6 +243,55 @@ func rulesC03(e *Engine, r *Report) {
 				}
 			}
 			r.Check(okd && !res.Undecided, "R03.6", "stage.(*Stage).isFileReady: `not found in the log` ⇒ positive delay", e.InstrPos(tw[0]), "the log miss path parks the file without a retry timer", res.Evals)
+		}
+	}
+}
+
+// checkFailedCompanionDiscarded: the record of ranges of an attempt that
+// failed validation is gone before a new attempt records ranges (shared by
+// R03.5 - the file must be receivable again - and R09.7 - the ranges on
+// record must describe the partial that exists now).
+func (e *Engine) checkFailedCompanionDiscarded(r *Report, rule string) {
+	{
+		failedC, _ := e.ConstVal("stage", "stateFailed")
+		optA, optB := false, false
+		var factsA, factsB []string
+		if fn := e.Fn("stage.(*Stage).process"); fn != nil {
+			cls := labeler(I(`call(os.Remove)((p1.path + ".cmp"))`, "cmpRemoved"))
+			res := e.Flow(fn, FlowOpts{Classify: cls, Target: e.instrMatch("call(stage.(*Stage).toCache)(p0, p1, " + failedC + ")")})
+			n, good := 0, 0
+			for _, ws := range res.At {
+				for _, w := range ws {
+					n++
+					if w.Has("cmpRemoved") {
+						good++
+					}
+				}
+			}
+			optA = n > 0 && good == n && !res.Undecided
+			factsA = append(factsA, fmt.Sprintf("validator: %d of %d failure paths remove the companion", good, n))
+		}
+		if fn := needFn(e, r, rule, "stage.(*Stage).initStageFile"); fn != nil {
+			edges := e.ifEdges(fn, "(call(stage.(*Stage).getFileState)(p0, p1) == "+failedC+")")
+			cls := labeler(I(`call(os.Remove)((p1 + ".cmp"))`, "cmpRemoved"))
+			okAll := len(edges) > 0
+			for _, ed := range edges {
+				res := e.Flow(fn, FlowOpts{Classify: cls, Target: e.instrMatch(`call(os.Create)((p1 + ".part"))`), StartEdge: ed.B, StartSucc: ed.Succ})
+				for _, ws := range res.At {
+					for _, w := range ws {
+						if !w.Has("cmpRemoved") {
+							okAll = false
+						}
+					}
+				}
+				if res.Undecided {
+					okAll = false
+				}
+			}
+			optB = okAll
+			factsB = append(factsB, fmt.Sprintf("initStageFile: %d `state == failed` edge(s), all reach the partial's creation through Remove[Cmp]: %v", len(edges), okAll))
+			r.Check(optA || optB, rule, "stage: companion of a failed file is discarded before re-reception", e.Pos(fn.Pos()),
+				"neither the validator (on every failure path) nor initStageFile (on every state==failed path) removes the stale companion: a re-sent file completes at its first part and fails validation for ever", 2, append(factsA, factsB...)...)
 		}
 	}
 }
